@@ -135,6 +135,18 @@ example : vmConv .int8 .uint64 (reg (-1)) = .ok (reg (-1)) ∧ val .uint64 (reg 
   decide
 example : vmConv .uint16 .int8 (reg 65408) = .ok (reg (-128)) := by decide
 
+/-- **`string(x)` for an integer `x` of any kind** (`OpConvertInt` / `OpConvertUint` to a string
+type, body regenerated from run.go): the UTF-8 encoding of the code point `x`, "\uFFFD" when `x`
+is not a valid code point — in particular for values that only become valid after truncation to
+`rune` (`1<<32 + 'A'`). Holds for every register content, canonical or not. -/
+theorem convertString_refines_spec (src : Kind) (x : BitVec 64) :
+    vmConvStr src x = intToString (val src x) :=
+  convStr_refines src x
+
+example : vmConvStr .int64 (reg 4294967361) = [0xEF, 0xBF, 0xBD] ∧ vmConvStr .int (reg 65) = [65] ∧
+    vmConvStr .int32 (reg (-1)) = [0xEF, 0xBF, 0xBD] ∧ vmConvStr .uint16 (reg 0xD800) = [0xEF, 0xBF, 0xBD] ∧
+    vmConvStr .uint32 (reg 0x1F600) = [0xF0, 0x9F, 0x98, 0x80] := by decide
+
 /-- **comparisons** (`OpIfInt` with the condition `emitComparison` chooses) -/
 theorem vmCmp_refines_spec (op : CmpOp) (k : Kind) (x y : BitVec 64) :
     vmCmp op k x y = cmp op (val k x) (val k y) :=
